@@ -295,7 +295,7 @@ func copyFile(dst, src string) error {
 
 func c19Main(c *lib.Ctx) {
 	repo := RepoDir()
-	wd := filepath.Join(lib.VerifDir(), "work", "C19")
+	wd := filepath.Join(lib.OutDir(), "work", "C19")
 	os.MkdirAll(wd, 0o755)
 	fitgen := filepath.Join(wd, "fitgen")
 	cmd := exec.Command("go", "build", "-o", fitgen, "./cmd/fitgen")
